@@ -300,12 +300,19 @@ func verifC17Other(e *venum.E, a *vh.Args, only string, capf *os.File) {
 				var anns []cj.VerifDetectorMsg
 				rm.VerifCaptureDetector(&anns)
 				addr := []byte(cip)
-				src := &pb.Addr{IP: addr, Port: proto.Uint32(4000)}
-				m := vfix.Msg{Secret: vfix.Secret(9), Transport: pb.TransportType_DTLS, Params: &pb.DTLSTransportParams{SrcAddr4: src, SrcAddr6: src}, V4: true, V6: true, Gen: 1, LibVer: 4,
+				// the client's own public address (what it learnt from STUN), in the slot of its family
+				dp := &pb.DTLSTransportParams{}
+				if v4 := cip.To4(); v4 != nil {
+					dp.SrcAddr4 = &pb.Addr{IP: v4, Port: proto.Uint32(4000)}
+				} else {
+					dp.SrcAddr6 = &pb.Addr{IP: addr, Port: proto.Uint32(4000)}
+				}
+				m := vfix.Msg{Secret: vfix.Secret(9), Transport: pb.TransportType_DTLS, Params: dp, V4: true, V6: true, Gen: 1, LibVer: 4,
 					Covert: "93.184.216.34:443", Source: pb.RegistrationSource_API, Addr: addr}
 				regs, err := rm.VerifParseRegMessage(m.Bytes())
 				if (err != nil || len(regs) == 0) && geo == "none" {
-					vh.Fatal("%s: DTLS registration does not parse: %v", id, err)
+					// (not a harness error: a station may refuse the message; what it wrote about that is judged below)
+					e.Out.Extra["connecting_registration_refused"] = fmt.Sprint(err)
 				}
 				vnet.DialHook = func(network, address string) (net.Conn, error) { return covert, nil }
 				x, _ := vsched.RunOnce(nil, 100000, func() *vsched.Scenario {
@@ -433,6 +440,52 @@ func verifC17Other(e *venum.E, a *vh.Args, only string, capf *os.File) {
 				}
 			}
 			judge(id, needles(cip), "client-address-in-log:ingest:"+oc.name+":"+site)
+		}
+	}
+	// (6) DTLS registrations whose parameters carry the client's own address in a form the station may refuse: port 0,
+	// port beyond 16 bits, an IPv4 address in the IPv6 slot, a 5-byte address. Whatever is said about the refusal
+	// (the ingest pipeline logs registration-creation errors at the default level) must not quote the address.
+	for _, shape := range []string{"wellformed", "port0", "port70123", "v4-in-v6-slot", "5-byte-address", "both-slots-same"} {
+		for _, cip := range clients {
+			id := fmt.Sprintf("part=ingest-dtls-params;shape=%s;client=%v", shape, cip)
+			if !run(id) {
+				continue
+			}
+			reset()
+			rm := vfix.Manager(nil, vfix.Selector(vfix.SubnetsTOML), &vfix.Tester{}, vfix.AllWrapping, capf)
+			_ = rm.AddTransport(pb.TransportType_DTLS, &dtlst.Transport{})
+			var anns []cj.VerifDetectorMsg
+			rm.VerifCaptureDetector(&anns)
+			ipb := []byte(cip)
+			if v4 := cip.To4(); v4 != nil {
+				ipb = v4
+			}
+			port := uint32(4000)
+			switch shape {
+			case "port0":
+				port = 0
+			case "port70123":
+				port = 70123
+			case "5-byte-address":
+				ipb = append(append([]byte{}, ipb[:4]...), 9)
+			}
+			a4, a6 := &pb.Addr{IP: ipb, Port: proto.Uint32(port)}, (*pb.Addr)(nil)
+			if len(ipb) == 16 {
+				a4, a6 = nil, a4
+			}
+			switch shape {
+			case "v4-in-v6-slot":
+				a4, a6 = nil, &pb.Addr{IP: ipb, Port: proto.Uint32(port)}
+			case "both-slots-same":
+				a4, a6 = &pb.Addr{IP: ipb, Port: proto.Uint32(port)}, &pb.Addr{IP: ipb, Port: proto.Uint32(port)}
+			}
+			m := vfix.Msg{Secret: vfix.Secret(10), Transport: pb.TransportType_DTLS, Params: &pb.DTLSTransportParams{SrcAddr4: a4, SrcAddr6: a6}, V4: true, V6: true, Gen: 1, LibVer: 4,
+				Covert: "93.184.216.34:443", Source: pb.RegistrationSource_API, Addr: []byte{198, 51, 100, 200}}
+			if p, msg, site := venum.Guard(func() { _, _ = rm.VerifParseRegMessage(m.Bytes()) }); p {
+				e.Violation("panic:"+site, id+": "+msg, map[string]any{"case": id})
+				continue
+			}
+			judge(id, needles(cip), "client-address-in-log:ingest-dtls-params:"+shape)
 		}
 	}
 	// (3) accept path on a real loopback socket: duplicating the descriptor fails (descriptor limit reached)
